@@ -2,12 +2,6 @@
 
 package wsutil
 
-import (
-	"io"
-
-	"github.com/gobwas/ws"
-)
-
 func vSmallTail(S []byte, from int) {
 	// bytes that may be read as further headers: keep what they can announce small
 	// (low 7 bits in {0..3, 8, 9, 10}: data/continuation/control opcodes, lengths <= 10)
@@ -45,153 +39,4 @@ func vArbFrames() []byte {
 	vAssume(vAnd(S[1]&0x7f == 127, vOr(L64 <= 2, L64 >= 1<<31)))
 	vSmallTail(S, 10)
 	return S
-}
-
-// C15_header_bytes: the two header decoders on 14 fully arbitrary bytes with any cut.
-func C15_header_bytes() {
-	S := vBytes("s", 14)
-	cut := vChoose("cut", 15)
-	src := &vCutSrc{data: S, cut: cut, useErr: vChoose("kind", 2) == 1}
-	if vChoose("which", 2) == 0 {
-		ws.ReadHeader(src)
-	} else {
-		st := ws.State(vU8("state"))
-		vAssume(st <= 7) // not fragmented: NextFrame reads no payload
-		rd := &Reader{Source: src, State: st, SkipHeaderCheck: vBool("skip"), MaxFrameSize: int64(vU64("max"))}
-		before := src.pos
-		_, err := rd.NextFrame()
-		_ = before
-		if err == nil {
-			vAssert(src.pos <= 14, "header.no_read_ahead")
-		}
-	}
-	vAssert(true, "header.returned")
-}
-
-// C15_frame_bytes: arbitrary bytes as frames at every decoding entry point: a value or an
-// error, never a panic, never a loop without progress (unwinding bound), for any cut.
-func C15_frame_bytes() {
-	S := vArbFrames()
-	n := len(S)
-	iters := 1 + vTier()
-	cuts := []int{n, 1, 3, 5}
-	if vTier() > 0 {
-		cuts = []int{n, 0, 1, 2, 3, 4, 5, 7, 9, 11, 13}
-	}
-	cut := cuts[vChoose("cut", len(cuts))]
-	if cut > n {
-		cut = n
-	}
-	server := vChoose("side", 2) == 0
-	mk := func() *vCutRW {
-		return &vCutRW{vCutSrc: vCutSrc{data: S, cut: cut, useErr: false}}
-	}
-	switch vChoose("entry", 5) {
-	case 0:
-		ws.ReadFrame(mk())
-	case 1:
-		cfg := vChoose("cfg", 3)
-		rd := &Reader{Source: mk(), State: vSide(server), CheckUTF8: cfg == 0, SkipHeaderCheck: cfg == 1}
-		if cfg == 2 {
-			rd.MaxFrameSize = 4
-		}
-		rd.OnIntermediate = func(h ws.Header, r io.Reader) error {
-			_, err := vReadAllB(r, 16)
-			if err == io.EOF {
-				return nil
-			}
-			return err
-		}
-		for i := 0; i < iters; i++ {
-			_, err := rd.NextFrame()
-			if err != nil {
-				break
-			}
-			if _, err := vReadAllB(rd, 8); err != io.EOF {
-				break
-			}
-		}
-	case 2:
-		src := mk()
-		for i := 0; i < iters; i++ {
-			if _, err := ReadMessage(src, vSide(server), nil); err != nil {
-				break
-			}
-		}
-	case 3:
-		rw := mk()
-		for i := 0; i < iters; i++ {
-			if _, _, err := readData(rw, vSide(server), ws.OpText); err != nil {
-				break
-			}
-		}
-	case 4:
-		_, r, err := NextReader(mk(), vSide(server))
-		if err == nil {
-			vReadAllB(r, 8)
-		}
-	}
-	vAssert(true, "frames.returned")
-}
-
-// C15_control_handler: any checked control header with any short payload.
-func C15_control_handler() {
-	server := vChoose("side", 2) == 0
-	n := vChoose("n", 5)
-	payload := vBytes("p", n)
-	h := ws.Header{Fin: true, OpCode: ws.OpCode(vU8("op")), Length: int64(n), Masked: server}
-	h.Mask = [4]byte{vU8("k0"), vU8("k1"), vU8("k2"), vU8("k3")}
-	vAssume(h.OpCode <= 15)
-	if ws.CheckHeader(h, vSide(server)) != nil {
-		return
-	}
-	dst := &vDst{failAt: -1}
-	avail := vChoose("avail", n+1) // the source may deliver fewer bytes than announced
-	src := vNewSrc(payload[:avail], 0, "chunk")
-	ControlHandler{Src: &src, Dst: dst, State: vSide(server), DisableSrcCiphering: vChoose("nocipher", 2) == 1}.Handle(h)
-	vAssert(true, "control.returned")
-}
-
-// C15_maxframe_no_payload_read: with a maximum frame size configured, a frame announcing more
-// is refused before ANY of its payload is read — from any reader state (fragmented or not),
-// whatever the frame kind, with or without header checking.
-func C15_maxframe_no_payload_read() {
-	st := ws.State(vU8("state"))
-	vAssume(st <= 15)
-	S := vBytes("hdr", 14)
-	extra := vBytes("payload", 3)
-	max := int64(vU64("maxframe"))
-	vAssume(max > 0)
-	l7 := S[1] & 0x7f
-	hs := 2
-	var L uint64
-	switch {
-	case l7 == 126:
-		hs = 4
-		L = uint64(S[2])<<8 | uint64(S[3])
-	case l7 == 127:
-		hs = 10
-		for i := 0; i < 8; i++ {
-			L = L<<8 | uint64(S[2+i])
-		}
-		vAssume(S[2]&0x80 == 0)
-	default:
-		L = uint64(l7)
-	}
-	if S[1]&0x80 != 0 {
-		hs += 4
-	}
-	vAssume(L > uint64(max)) // the frame announces more than the limit
-	wire := append(append([]byte{}, S[:hs]...), extra...)
-	src := vNewSrc(wire, vChoose("mode", 2), "chunk")
-	rd := &Reader{Source: &src, State: st, MaxFrameSize: max, SkipHeaderCheck: vBool("skipcheck")}
-	if st.Fragmented() {
-		rd.opCode = ws.OpText
-	}
-	handed := 0
-	rd.OnIntermediate = func(h ws.Header, r io.Reader) error { handed++; return nil }
-	_, err := rd.NextFrame()
-	vAssert(err != nil, "maxframe.oversized_frame_refused")
-	vAssert(src.pos <= hs, "maxframe.no_payload_byte_read")
-	vAssert(handed == 0, "maxframe.no_handler_called")
 }
